@@ -116,6 +116,44 @@ theorem sort_acyclic_never_circular_error (rc : Nat) (ms : List Model) (hd : Dis
     (hac : Acyclic ms) : sortDataModels rc ms ≠ .error .circularBases :=
   sortGo_ne_circular rc ms [] [] hd hac
 
+/-- Conversely, a fix-point is only ever reached on acyclic inheritance (absent self-bases): the
+order found is a witness. So every genuine inheritance cycle inside a batch ends in the
+`circular base classes` error — it is never silently accepted. -/
+theorem bubble_fixpoint_implies_acyclic (f : Nat) (l fx : List Model) (hd : DistinctPaths l)
+    (hns : ∀ m ∈ l, m.path ∉ m.bases) (h : bubble f l = some fx) : Acyclic l := by
+  obtain ⟨hfix, hperm⟩ := bubble_spec f l fx h
+  have hnd : (fx.map (·.path)).Nodup := ((hperm.map (·.path)).nodup_iff).mpr hd
+  exact acyclic_of_bases_first l fx hperm hnd
+    (fixpoint_sound fx hnd (fun m hm => hns m (hperm.mem_iff.mp hm)) hfix)
+
+/-- …and for the whole function: if it returns at all (distinct paths, no self-base), inheritance
+among the input models is acyclic. -/
+theorem sort_ok_implies_acyclic (rc : Nat) (ms : List Model) (out : Out) (hd : DistinctPaths ms)
+    (hwf : ∀ m ∈ ms, WF m) (hns : ∀ m ∈ ms, m.path ∉ m.bases)
+    (h : sortDataModels rc ms = .ok out) : Acyclic ms := by
+  have hperm := sort_perm rc ms out hd h
+  have hnd : (out.sorted.map (·.path)).Nodup := ((hperm.map (·.path)).nodup_iff).mpr hd
+  exact acyclic_of_bases_first ms out.sorted hperm hnd
+    (fun l1 m l2 hl b hb _ => sort_base_before_derived rc ms out hd hwf hns h l1 m l2 hl b hb)
+
+/-- The self-base hypothesis again: a 2-cycle `A ↔ B` is hidden from the bounded loop when `B`
+also names itself as base — both keys coincide, the pass is at a fix-point at once, the function
+returns `[A, B]`. Downstream `__sort_models` (with `keep_model_order`) then swaps the two for
+ever; without that option `class A(B)` is written before `B`. (Known finding C11-selfbase-hang.) -/
+theorem cycle_hidden_by_self_base :
+    (sortDataModels 1000 [⟨0, [1], [1]⟩, ⟨1, [0, 1], [0, 1]⟩]).map (·.sorted.map (·.path)) = .ok [0, 1] := by
+  decide
+
+/-- The swap loop of `Parser.__sort_models` has no bound of its own: on classes `A(B)`, `B(A, B)`
+it alternates between the two orders for every amount of fuel (the code loops for ever). It relies
+on `sort_data_models` having rejected cyclic inheritance before — which `cycle_hidden_by_self_base`
+shows it does not always do. -/
+theorem sortModels_diverges_on_2cycle : ∀ f, sortModels [] f [nmA, nmB] = none := by
+  intro f
+  have : sortBy (fun a b => lexLe a.name b.name) [nmA, nmB] = [nmA, nmB] := by decide
+  simp only [sortModels, this]
+  exact (swapLoop_cycle_none f).1
+
 /-- Kept for history (defect D3): on a 2-cycle of bases the pass has no fix-point, so the
 unbounded `while True` of the pinned tree never left the loop — this is why the bound was
 introduced. With the bound the model reports the cycle for every fuel. -/
